@@ -856,6 +856,14 @@ def r24_call_shim(src, item, ed, opts):
             elif kind == "call":
                 for j, a in enumerate(n["args"]):
                     env[f"arg{j}"] = src.text(*a["range"])
+                    root = a["range"]
+                    while True:
+                        inner = [rn for rn in nodes_of(item, "methodcall") if list(rn["range"]) == list(root) and rn["method"] in ("iter", "rev", "cloned", "copied", "into_iter") and not rn["args"]]
+                        if not inner:
+                            break
+                        root = inner[0]["receiver"]
+                    if list(root) != list(a["range"]):
+                        env[f"arg{j}_root"] = src.text(*root)
             elif kind == "unary":
                 env["operand"] = src.text(*n["operand"])
             elif kind == "binary":
@@ -1205,7 +1213,7 @@ def apply_at_anchors(src, item, ed, spec):
         elif kind == "call":
             c = [n for n in nodes_of(item, "call") if n["func"] == sel]
         elif kind == "methodcall":
-            c = [n for n in nodes_of(item, "methodcall") if n["method"] == sel and (at.get("recv") is None or n["receiver_text"] == at["recv"].replace(" ", ""))]
+            c = [n for n in nodes_of(item, "methodcall") if (re.fullmatch(at["select_matches"], n["method"]) if at.get("select_matches") else n["method"] == sel) and (at.get("recv") is None or n["receiver_text"] == at["recv"].replace(" ", ""))]
         elif kind == "binary":
             c = [n for n in nodes_of(item, "binary") if n["op"] == sel]
         elif kind == "let":
